@@ -194,7 +194,8 @@ def explore_calls(chunk):
 MUTATING_FORMS = {
     "idx assign", "member assign", "self append", "self put",
     "mutate in for", "mutate in for keys", "remove in for",
-    "mutate in comprehension",
+    "mutate in comprehension", "mutate in comprehension keys",
+    "mutate in comprehension values", "mutate in comprehension entries",
 }
 
 
@@ -658,6 +659,12 @@ OPS = [
     ("append s", "append(s, 5)", lambda h: m_append(h, h.v["s"], 5)),
     ("append t", "append(t, 6)", lambda h: m_append(h, h.v["t"], 6)),
     ("remove s", "remove(s, 1)", lambda h: m_remove(h, h.v["s"], 1)),
+    # two mutations with no read in between that leave the size as it was
+    ("swap s", "do remove(s, 2); append(t, 9); end",
+     lambda h: (m_remove(h, h.v["s"], 2), m_append(h, h.v["t"], 9))),
+    ("swap a", "do delete_at(a, 0); append(b, 4); end",
+     lambda h: (need_list(h.v["a"]).items.pop(0) if h.v["a"].items
+                else None, m_append(h, h.v["b"], 4))),
     ("r = a + [7]", "r = a + [7]",
      lambda h: setr(h, fresh(h.v["a"].items + [7]))),
     ("r = a + 7", "r = a + 7",
@@ -721,6 +728,7 @@ OPNAMES = [o[0] for o in OPS]
 OPMAP = {o[0]: o for o in OPS}
 CORE_OPS = ["append a", "append b", "delete_at", "elem assign", "param",
             "closure", "nested", "via map", "map assign", "append s",
+            "swap s",
             "r = a + [7]", "r = a * 1", "r = sorted(a)", "r = sublist",
             "r = slice", "r = spread", "r = unique", "r = union",
             "r = set(a)", "r = reb(a)", "r = a", "r = s", "mutate r",
